@@ -70,9 +70,9 @@ PROPS["C06"] = dict(
 )
 
 PROPS["C08"] = dict(
-    modules=["Proofs.C08", "Proofs.C08Full", "Proofs.C08Trans"],
+    modules=["Proofs.C08", "Proofs.C08Full", "Proofs.C08Trans", "Proofs.C08Trans2"],
     theorems=['Goflow.C08.cases_match', 'Goflow.C08.decodeUNumber_eq', 'Goflow.C08.decodeUNumber_long', 'Goflow.C08.decodeUNumberLE_eq', 'Goflow.C08.writeDecoded_trunc', 'Goflow.C08.full_value', 'Goflow.C08.v9_time', 'Goflow.C08.ipfix_time', 'Goflow.C08.v5_sampling_14bit', 'Goflow.C08.v5_record_eq_ref',
-              'Goflow.C08.record_eq_ref', 'Goflow.C08.convertFields_record_eq_ref', 'Goflow.C08.packet_eq_ref', 'Goflow.C08.recordOK_of_check', 'Goflow.C08.apply_cases', 'Goflow.C08.legacy_source_matches', 'Goflow.C08Trans.decodeUNumber_trans_eq', 'Goflow.C08Trans.decodeUNumberLE_trans_eq', 'Goflow.C08Trans.convertLegacyRecord_eq', 'Goflow.C08Trans.templateKey_eq'],
+              'Goflow.C08.record_eq_ref', 'Goflow.C08.convertFields_record_eq_ref', 'Goflow.C08.packet_eq_ref', 'Goflow.C08.recordOK_of_check', 'Goflow.C08.apply_cases', 'Goflow.C08.legacy_source_matches', 'Goflow.C08Trans.decodeUNumber_trans_eq', 'Goflow.C08Trans.decodeUNumberLE_trans_eq', 'Goflow.C08Trans.convertLegacyRecord_eq', 'Goflow.C08Trans.templateKey_eq', 'Goflow.C08Trans2.convertField_eq', 'Goflow.C08Trans2.convertFields_cons', 'Goflow.C08Trans2.convertLoop_eq', 'Goflow.C08Trans2.convertNetFlowDataSet_eq', 'Goflow.C08Trans2.addrReplaceCheck_raw', 'Goflow.C08Trans2.mapCustomNetFlow_eq'],
     generators=[dict(name="C08", quick=400, thorough=40000)],
     harness=["impl"],
     level_text="Theorems: the conversion's case table equals the table regenerated from the source; v5_record_eq_ref; record_eq_ref / packet_eq_ref — for every v9 / IPFIX record of the documented domain the conversion equals the documented reference, whatever the template order; number decoding at every width; time rules.",
